@@ -153,7 +153,7 @@ func (o c05op) String() string { return fmt.Sprintf("%s(u%d@%s)", o.Kind, o.U, o
 // seqHistory runs one sequential history and returns a failure description.
 func seqHistory(r *rand.Rand, nops int, sh *core.Shard) (ops []c05op, sig, what string) {
 	rg := newRig()
-	eps := []string{"e1", "e10", "e1-x"}
+	eps := []string{"e1", "e10", "e1-x", "E1", "caf\xe9"} // near misses, a differently cased twin, an id that is not valid UTF-8 (legal: any percent-decoded path segment)
 	type obj struct {
 		u       *fakeUp
 		added   bool
@@ -254,7 +254,7 @@ func concRound2(r *rand.Rand, workers, phases, opsPerPhase int, sh *core.Shard) 
 	rg := newRig()
 	rg.dg.on.Store(true)
 	defer func() { sh.Count("injected_publication_delays", rg.dg.slept.Load()) }()
-	eps := []string{"e1", "e10", "e1-x"}
+	eps := []string{"e1", "e10", "e1-x", "E1", "caf\xe9"} // near misses, a differently cased twin, an id that is not valid UTF-8 (legal: any percent-decoded path segment)
 	type obj struct {
 		u       *fakeUp
 		added   atomic.Bool
@@ -414,7 +414,7 @@ func runC05(sh *core.Shard, a props.Args) {
 func init() {
 	props.Register(&props.Prop{
 		ID: "C05", Level: "exploration", Race: true,
-		Rule: "the real LoadBalancedManager + cluster.State + syncer + gossip state of one node, driven (a) by seeded sequential histories over 3 near-miss endpoint ids and one-shot upstream objects: add, remove, a peer echoing a delta that names this node itself with endpoint entries above its current version (what a previous incarnation with the same node id left behind), repeated and late removal (the proxy's ErrGone path followed by the handler's deferred removal), removal of never-added objects; after every operation the reference count per endpoint must equal manager.Endpoints(), cluster LocalNode().Endpoints and the live endpoint:<id> gossip entries (absent or tombstoned iff 0), and Select(e,false) must succeed iff the count is positive; (b) by 4-16 worker goroutines plus 2 'proxy' goroutines that remove what Select hands out plus status readers, under the race detector, with the same equality asserted at every barrier (reference = objects added and never removed by anybody). Non-trivial sequential history = contains a duplicate removal while a sibling of the same endpoint is registered; distinct = hash of the operation list / of the round parameters.",
+		Rule: "the real LoadBalancedManager + cluster.State + syncer + gossip state of one node, driven (a) by seeded sequential histories over 5 endpoint ids (near misses e1/e10/e1-x, the differently cased E1, and caf\\xe9 which is not valid UTF-8) and one-shot upstream objects: add, remove, a peer echoing a delta that names this node itself with endpoint entries above its current version (what a previous incarnation with the same node id left behind), repeated and late removal (the proxy's ErrGone path followed by the handler's deferred removal), removal of never-added objects; after every operation the reference count per endpoint must equal manager.Endpoints(), cluster LocalNode().Endpoints and the live endpoint:<id> gossip entries (absent or tombstoned iff 0), and Select(e,false) must succeed iff the count is positive; (b) by 4-16 worker goroutines plus 2 'proxy' goroutines that remove what Select hands out plus status readers, under the race detector, with the same equality asserted at every barrier (reference = objects added and never removed by anybody). Non-trivial sequential history = contains a duplicate removal while a sibling of the same endpoint is registered; distinct = hash of the operation list / of the round parameters.",
 		Assumptions: []string{
 			"an upstream object is registered at most once (the server creates a fresh ConnUpstream per connection)",
 			"gossip publication observed on the node's own gossip state (propagation to peers is C02-C04)",
